@@ -167,6 +167,16 @@ def build_harness(race=False):
     binp = os.path.join(HARNESS, "harness" + ("-race" if race else ""))
     env = dict(GOENV)
     cmd = ["go", "build", "-tags", "verif", "-o", binp]
+    if os.path.abspath(REPO) != "/repo":
+        # VERIF_REPO=<dir>: check a scratch copy of the repository (mutation trials) instead of /repo
+        os.makedirs(WORK, exist_ok=True)
+        tag = hashlib.sha1(os.path.abspath(REPO).encode()).hexdigest()[:8]
+        mod = os.path.join(WORK, f"go.{tag}.mod")
+        with open(mod, "w") as f:
+            f.write(open(os.path.join(HARNESS, "go.mod")).read().replace("=> /repo", "=> " + os.path.abspath(REPO)))
+        open(os.path.join(WORK, f"go.{tag}.sum"), "a").close()
+        binp = os.path.join(WORK, f"harness-{tag}" + ("-race" if race else ""))
+        cmd = ["go", "build", "-modfile", mod, "-tags", "verif", "-o", binp]
     if race:
         env["CGO_ENABLED"] = "1"
         cmd.insert(2, "-race")
@@ -393,6 +403,7 @@ def main(argv):
     if "--replay" in argv:
         replay = argv[argv.index("--replay") + 1]
     t0 = time.time()
+    hbin = None
     violations = []      # (fail dict)
     known_lines = []
     broken = []          # Failure objects (no concrete input)
@@ -492,14 +503,14 @@ def main(argv):
     reported = []
     seen_known = set()
     try:
-        hb = os.path.join(HARNESS, "harness")
+        hb = hbin
         uniq = {}
         for v in violations:
             uniq.setdefault((v["kind"], v["why"]), []).append(v)
         for (kind, why), vs in uniq.items():
             vs.sort(key=lambda v: len(v["case"]))
             v = vs[0]
-            if not v["case"].startswith("<") and os.path.exists(hb):
+            if not v["case"].startswith("<") and hb and os.path.exists(hb):
                 v = shrink(prop, hb, v)
             v["count"] = len(vs)
             reported.append(v)
